@@ -76,6 +76,15 @@ def finish_gmrf_glue(ctx, cuqi, cs, lines, outs):
                         stage = f"step:{type(e).__name__}"
             hist[f"{iface}:{c['fkind']}:{stage}"] = hist.get(f"{iface}:{c['fkind']}:{stage}", 0) + 1
             refused = stage != "sampled"
+            if out == "err" and not refused and c["fkind"] in ("vec", "vec-tol"):
+                # the `prec` setter unwrapped a vector valued precision instead of refusing it: not demanded by the property as
+                # long as what is then drawn is the exact conditional of the target's own density -- oracle only (zero bc: no
+                # listed finding interferes), recorded in the evidence
+                hist[f"{iface}:lenient-prec-setter"] = hist.get(f"{iface}:lenient-prec-setter", 0) + 1
+                if c["bc"] == "zero":
+                    spec = {"name": "d", "fam": "gmrf", "reg": False, "bc": c["bc"], "order": c["order"], "pd": 1, "n": c["n"]}
+                    base.check_exactness(ctx, key + ":refusal", None, desc, spec, post, calls, None, force=True)
+                continue
             if (out == "err") != refused:
                 ctx.disagree(key + ":refusal", desc, out[:40], stage, "GMRF target refused by one side only (constructor / prec setter glue)")
                 if not refused:
